@@ -6,6 +6,7 @@ compared with vf.oracles.ref_checkdigit (differential oracle).
 """
 import itertools
 
+from vf.oracles import agencies
 from vf.oracles import ref_checkdigit as ref
 
 PROP = "C20"
@@ -17,7 +18,7 @@ RULE = ("bases enumerated (digit sub-spaces, disjoint blocks per shard: distinct
         "other check character on the sampled subset, ISIN conversion)")
 ASSUMPTIONS = [
     "reference implementation vf/oracles/ref_checkdigit.py is correct (self-tested on published identifiers at start-up)",
-    "known numbering-agency prefixes = the two-letter keys of ofxtools.lib.NUMBERING_AGENCIES",
+    "known numbering-agency prefixes = vf/oracles/agencies.py (frozen copy of the library's table of 68 agencies, the four keys that had lost their second letter restored)",
     "SEDOL 'fails validation' is observed through sedol2isin(), which refuses a wrong check digit (any exception counts)",
 ]
 EXHAUSTIVE = {
@@ -81,7 +82,9 @@ class Mon:
 
         self.ctx = ctx
         self.u = utils
-        self.known = {k for k in NUMBERING_AGENCIES if len(k) == 2}
+        # "known prefix" comes from the check's own frozen list, not from the table under test
+        self.known = set(agencies.PREFIXES)
+        self.table_keys = sorted(NUMBERING_AGENCIES)
 
     # ---- CUSIP ----
     def cusip(self, base, full):
@@ -271,6 +274,30 @@ class Mon:
                     ctx.violation("isin/wrong-length-accepted", f"validate_isin({t!r}) is True", {"kind": "len", "name": "isin", "text": t})
 
 
+def table_and_anchors(ctx, m):
+    """The table of numbering agencies itself, and identifiers of real securities (no generator involved)."""
+    for k in m.table_keys:
+        ctx.ev()
+        if not (isinstance(k, str) and len(k) == 2 and k.isascii() and k.isalpha() and k.isupper()):
+            ctx.violation("isin/agency-key-is-no-prefix", f"NUMBERING_AGENCIES has the key {k!r}: no ISIN begins with it, the agency's identifiers can never validate",
+                          {"kind": "table"})
+    missing = sorted(m.known - set(m.table_keys))
+    if missing:
+        ctx.violation("isin/agency-missing-from-table", f"prefixes {missing} are not in NUMBERING_AGENCIES any more", {"kind": "table"})
+    for isin in agencies.REAL_ISINS:
+        ctx.ev()
+        ctx.count("real_isins")
+        if ref.isin_check(isin[:11]) != isin[11]:
+            ctx.inconclusive_because(f"anchor {isin} fails the reference check digit")
+            continue
+        try:
+            ok = m.u.validate_isin(isin)
+        except Exception as e:
+            ok = e
+        if ok is not True:
+            ctx.violation("isin/valid-rejected/real-security", f"validate_isin({isin!r}) -> {ok!r}", {"kind": "real-isin", "isin": isin})
+
+
 def run_shard(ctx):
     try:
         ref.selftest()
@@ -278,6 +305,7 @@ def run_shard(ctx):
         ctx.inconclusive_because("reference check-digit implementation failed its self-test")
         return
     m = Mon(ctx)
+    table_and_anchors(ctx, m)
     rng = ctx.rng
     sh, n = ctx.shard, ctx.nshards
     thorough = ctx.tier == "thorough"
@@ -367,7 +395,9 @@ def replay(ctx, case):
     for _ in range(3):
         disturb(m.u, ctx.rng)
     kind = case["kind"]
-    if kind == "cusip":
+    if kind in ("table", "real-isin"):
+        table_and_anchors(ctx, m)
+    elif kind == "cusip":
         m.cusip(case["base"], full=True)
     elif kind == "sedol":
         m.sedol(case["base"], full=True)
